@@ -13,7 +13,8 @@ pub fn gen(r: &mut Rng) -> Value {
     let mut ops = vec![];
     for _ in 0..n {
         let copy: Vec<String> = (0..r.below(3)).map(|_| r.pick(&NAMES).to_string()).collect();
-        let op = match r.below(12) {
+        let op = match r.below(13) {
+            12 => json!({"op": "all_names", "out": r.pick(&["names", "a", "p::x"])}),
             0..=2 => json!({"op": "set", "name": r.pick(&NAMES), "value": r.pick(&VALS)}),
             3 => json!({"op": "set_by_name", "name": r.pick(&NAMES), "value": r.pick(&VALS)}),
             4 => json!({"op": "unset_by_name", "name": r.pick(&NAMES)}),
@@ -50,6 +51,7 @@ pub fn run(input: &Value) -> Option<Value> {
         let copy: Vec<String> = op["copy"].as_array().map(|a| a.iter().map(|x| x.as_str().unwrap().to_string()).collect()).unwrap_or_default();
         let copy_txt = if copy.is_empty() { String::new() } else { format!(" --copy {}", copy.join(" ")) };
         let mut expect_out: Option<Option<String>> = None;
+        let mut all_names_out: Option<String> = None;
         let script = match kind {
             "set" => {
                 let v = op["value"].as_str()?;
@@ -105,12 +107,39 @@ pub fn run(input: &Value) -> Option<Value> {
                 }
                 format!("scope_pop_stack{}", copy_txt)
             }
+            "all_names" => {
+                // the listing is exactly the key set at the time of the call (the output variable counts when it is
+                // already defined); the listing is joined with a separator no generated name contains and released
+                let o = op["out"].as_str().unwrap_or("names");
+                let mut keys: Vec<String> = vars.keys().cloned().collect();
+                keys.sort();
+                expect_out = Some(Some(keys.join("|")));
+                // afterwards the output variable holds the (released) handle text: copied from the real run below
+                all_names_out = Some(o.to_string());
+                format!("{} = get_all_var_names\n__sorted = array_length ${{{}}}\n__out = array_join ${{{}}} |\n__r = release ${{{}}}\n__r = set_by_name __r\n__sorted = set_by_name __sorted", o, o, o, o)
+            }
             _ => return None,
         };
         context = match runner::run_script(&script, context, None) {
             Ok(c) => c,
             Err(e) => return Some(json!({"step": i, "script": script, "error": e.to_string()})),
         };
+        if let Some(o) = &all_names_out {
+            // the listing is unordered: compare as sets
+            if let Some(j) = context.variables.get("__out").cloned() {
+                let mut parts: Vec<String> = if j.is_empty() { vec![] } else { j.split('|').map(|x| x.to_string()).collect() };
+                parts.sort();
+                context.variables.insert("__out".to_string(), parts.join("|"));
+            }
+            match context.variables.get(o).cloned() {
+                Some(h) => {
+                    vars.insert(o.clone(), h);
+                }
+                None => {
+                    vars.remove(o);
+                }
+            }
+        }
         if let Some(want) = expect_out {
             let got = context.variables.remove("__out");
             if got != want {
